@@ -2,6 +2,7 @@
 base strings, known-finding signatures (predicates over a failing case)."""
 
 KIND_NAMES = {
+    1701: 'C17/ram: resourcemanager vs Ram.v (outcomes and notifications validated; allocation compared exactly)',
     901: 'C09/picker: piecepicker (peer half) under the torrent glue vs Picker.v (picks validated against the legal set)',
     1501: 'C15/udp_packet: UDP announce datagram vs Tracker.udp_announce',
     1502: 'C15/http_query: HTTP announce query vs Tracker.http_query',
@@ -40,6 +41,11 @@ TRUSTED_COMMON = [
 ]
 
 PROPS = {
+    'C17': {
+        'kinds': {1701: {'quick': 1200, 'thorough': 20000}},
+        'trusted': ['Go select semantics: one ready case is chosen; channel operations are atomic steps of the manager loop'],
+        'assumptions': ['callers release only reservations they were granted (caller protocol)'],
+    },
     'C09': {
         'kinds': {901: {'quick': 1500, 'thorough': 40000}},
         'trusted': ['slices.SortFunc returns a permutation sorted by the key (ties in any order)', 'markFileEdges (file head/tail flags are taken from the real picker)'],
@@ -105,7 +111,7 @@ def distribution(pid, cases):
 
 # kinds whose observations carry wall-clock measurements: agreement is decided by the monitor
 # (model prediction compared with a tolerance), not by exact equality of the two outputs
-MONITOR_DECIDES = {1503}
+MONITOR_DECIDES = {1503, 1701}
 
 # kind -> (tag kind, names): the model is run a second time to histogram the branches the cases reach
 TAG_KINDS = {901: (902, {1: 'peer already downloading', 2: 'no pick allowed (choked)', 3: 'allowed-fast / sequential-first', 4: 'file edge or sequential', 5: 'stage reached, no candidate', 6: 'end-game pick', 7: 'end-game starts', 8: 'stalled re-request', 9: 'rarest'})}
